@@ -22,8 +22,8 @@ SPEC = dict(
                    bound='client nonce 3 bytes, server nonce field 5, salt field 4, iteration field 2, password 2 units'),
                  I('scram_exchange_user', 'h_scram_exchange', (2, 1, 1, 3, 2, 1), unwind=12, tiers=('thorough',), timeout_s=300,
                    bound='as scram_exchange with a 1-unit user name'),
-                 I('scram_two_sessions', 'h_scram_two_sessions', (2, 0, 1, 3, 2, 1), unwind=12, cdefs={'C06_ORC_CAP': 20, 'C06_B64CAP': 5},
-                   bound='two client objects in sequence, same hash / salt field (2 bytes) / iteration field (1 byte), client nonces 2 bytes, server nonce fields 3 bytes, passwords 1 unit each (equal or different)'),
+                 I('scram_two_sessions', 'h_scram_two_sessions', (2, 0, 1, 3, 1, 1), unwind=12, cdefs={'C06_ORC_CAP': 20, 'C06_B64CAP': 5},
+                   bound='two client objects in sequence, SCRAM-SHA-256 for both, same salt (the byte "s") and iteration field (1 arbitrary byte, meaning 4096); first login honest: client nonce "c1" + arbitrary extension, second login arbitrary 3-byte nonce field; client nonces 2 bytes, passwords 1 unit each (equal or different)'),
                  I('scram_refuse_attrs', 'h_scram_refuse_attrs', (1, 0, 1, 2), unwind=12,
                    bound='3 attributes "k e v v" of 4 arbitrary bytes each (no "," inside), client nonce 1 byte'),
                  I('scram_final_any', 'h_scram_final_any', (1, 1, 1), unwind=12, bound='server-final = 10 arbitrary bytes without ",", arbitrary stored signature of 4 bytes'),
